@@ -10,9 +10,10 @@ import tempfile
 
 import compat  # noqa: F401
 from props.base import nontrivial, corpus_for  # noqa: F401
+from props import c15_func
 
 ID = 'C15'
-LEAN_MODULES = ['PybtexModel.Props.C15']
+LEAN_MODULES = ['PybtexModel.Props.C15', 'PybtexModel.Props.C15x']
 THEOREMS = {
     'C15_strip_comment': 'strip_comment removes exactly the text from the first % outside a string literal (a % preceded by an odd number of " is kept), for every line; equals the declarative spec',
     'C15_strip_comment_id': 'strip_comment is the identity on lines without % and is idempotent',
@@ -38,6 +39,12 @@ THEOREMS = {
     'C15_command_ascii': 'a name accepted by the arity table consists of ASCII letters and upper-cases to a table entry; every command of every ACCEPTED source is one of the ten commands with exactly its number of groups (the only proved fact about arbitrary accepted sources: there is no theorem "parse_string(src) = p implies src spells p")',
     'C15_roundtrip_entry_points': 'printing any well-formed program with any lay-out whose line breaks are \\n / \\r\\n and reading it back through parse_stream or parse_file is the identity too - trailing blanks allowed (no noTrailingWs proviso)',
     'C15_roundtrip_entry_points_nonvacuous': 'a lay-out with blanks before \\n, \\r\\n, a comment and the end of text: plain breaks, trailing white space, parse_stream and parse_file read the program back (kernel evaluation)',
+    'C15_error_names_line_of_source': 'EVERY source text (no hypothesis at all): when parse_string rejects it the error is one of the three PybtexSyntaxError classes, its lineno l satisfies 1 <= l <= number of lines of the source (str.splitlines, at least 1), and str(error) = "syntax error in line <l>: <message>" with the decimal spelling of the same l (PybtexSyntaxError.__str__ = Errors.syntaxStr of C16); parse_string only - parse_stream / parse_file hand the parser text that may contain a lone CR',
+    'C15_error_names_line_of_source_nonvacuous': 'two rejected sources whose error is on their LAST line (the bound is attained): line, number of lines and the literal text of str(error); the first has plain breaks and parse_stream rejects it on the same line (kernel evaluation)',
+    'C15_error_names_line_of_source_stream': 'the same for parse_stream, for EVERY source whose line breaks are \\n / \\r\\n only (hypothesis plainBreaks): PybtexSyntaxError class, 1 <= lineno <= number of lines, str(error) spells that line',
+    'C15_error_names_line_of_source_stream_neg': 'witness that plainBreaks is needed: the one-line stream read<CR><CR>foo is rejected "in line 3" by parse_stream (the scanner counts a lone CR, the stream does not end a line there)',
+    'C15_token_is_consumed_text': 'Scanner.required with any list of patterns that match a non-empty prefix (hypothesis PatSound, discharged for the three lists of bst.py in _nonvacuous): a returned token value is exactly the text consumed after the white space, is not empty, and only eat_whitespace moves the line number (never backwards)',
+    'C15_token_is_consumed_text_nonvacuous': 'PatSound holds for the pattern lists of parse_group, parse_command and the group opener; a concrete scan returns #-12 on line 2',
     'C15_command_ascii_nonvacuous': 'long-s ORT / dotless-i TERATE are not commands (rejected on their line), #<Arabic digit> is no integer, sOrT is a command',
 }
 RULE = ('exhaustive: FUNCTION bodies of <=3 tokens over every token kind (names of operator characters, quoted names, negative '
@@ -46,9 +53,13 @@ RULE = ('exhaustive: FUNCTION bodies of <=3 tokens over every token kind (names 
         'character truncation of a base set; seeded random large programs with random lay-outs; random raw text; random lines for '
         'strip_comment; corpus: all .bst files of tests/data; every lexeme of the base programs replaced by lexically broken pieces (#, #-, '
         '#+1, #a, "x, x") and by Unicode look-alikes (long-s / dotless-i command names, non-ASCII decimal digits); integers of 4299-5000 '
-        'digits and nesting 50-1000 deep (flat comparison); pairs of programs differing in exactly one place compared with the real ==.  '
+        'digits and nesting 50-1000 deep (flat comparison); pairs of programs differing in exactly one place compared with the real ==; function level (ops bstscan / bstgroup / bstlit / bstlines / bstconst): '
+        'eat_whitespace, update_lineno, required with the three pattern lists, parse_group, parse_command, the literal constructors, the line '
+        'conventions and the text each entry point hands to BstParser on all short texts + random ones; the character classes of the compiled '
+        'patterns over all code points; str(error) and error.filename of every rejection.  '
         'non-trivial = source with >= 2 lexemes; distinct by case JSON')
 TRUSTED = ['Python twin of the Lean printer in this module (its output is compared with the Lean `print` on every case)',
+           'Errors.syntaxStr (Model/Errors.lean, property C16) as the model of PybtexSyntaxError.__str__; compared with str(error) on every rejected case',
            'sys.get_int_max_str_digits() of the running interpreter (regenerated into Gen/BstCommands.lean; must equal the reference 4300)']
 ASSUMPTIONS = ['function literals nested less than DEEP_NESTING = 300 levels deep: beyond about 0.7 x sys.getrecursionlimit() levels the recursive '
                'parse_group raises RecursionError (recorded finding C15-deep-nesting-recursion; the model and the theorems have no such limit)',
@@ -83,12 +94,35 @@ def _canon_prog(cmds):
     return out
 
 
-def _outcome(thunk):
+FILE_TAG = '<FILE>'
+
+
+def _err_fields(e, path=None):
+    """What a caller sees of a PybtexSyntaxError: class, lineno, args[0], str(error), error.filename (the scratch file of
+    this harness is written <FILE>)."""
+    try:
+        text = str(e)
+    except Exception as x:  # noqa
+        text = compat.pybtex_error_kind(x)
+    fn = getattr(e, 'filename', None)
+    if path is not None and fn == path:
+        fn = FILE_TAG
+    return {'err': type(e).__name__, 'line': e.lineno, 'msg': e.args[0] if e.args else None, 'str': text, 'filename': fn}
+
+
+def _core(o):
+    """An outcome without the rendering fields (the reference readings of the spec have class, line and message only)."""
+    if isinstance(o, dict) and 'err' in o:
+        return {k: v for k, v in o.items() if k not in ('str', 'filename')}
+    return o
+
+
+def _outcome(thunk, path=None):
     from pybtex.scanner import PybtexSyntaxError
     try:
         return {'ok': _canon_prog(list(thunk()))}
     except PybtexSyntaxError as e:
-        return {'err': type(e).__name__, 'line': e.lineno, 'msg': e.args[0] if e.args else None}
+        return _err_fields(e, path)
     except Exception as e:  # noqa
         return {'err': compat.pybtex_error_kind(e)}
 
@@ -122,7 +156,7 @@ def _flat_toks(toks):
     return out, depth
 
 
-def _outcome_flat(thunk):
+def _outcome_flat(thunk, path=None):
     from pybtex.scanner import PybtexSyntaxError
     try:
         cmds = list(thunk())
@@ -137,7 +171,7 @@ def _outcome_flat(thunk):
             prog.append({'c': c[0], 'g': gs})
         return {'ok_flat': prog, 'depth': depth}
     except PybtexSyntaxError as e:
-        return {'err': type(e).__name__, 'line': e.lineno, 'msg': e.args[0] if e.args else None}
+        return _err_fields(e, path)
     except Exception as e:  # noqa
         return {'err': compat.pybtex_error_kind(e)}
 
@@ -162,7 +196,7 @@ def outcomes(text, flat=False):
     path = _tmpfile()
     with open(path, 'w', encoding='utf-8', newline='') as f:
         f.write(text)
-    res['file'] = oc(lambda: bst.parse_file(path, encoding='utf-8'))
+    res['file'] = oc(lambda: bst.parse_file(path, encoding='utf-8'), path)
     return res
 
 
@@ -280,6 +314,8 @@ def case_text(case):
 
 def impl(case):
     op = case['op']
+    if op in c15_func.FUNCTION_OPS:
+        return c15_func.impl(case, _err_fields, _flat_toks)
     if op == 'bststrip':
         from pybtex.bibtex import bst
         try:
@@ -298,6 +334,8 @@ def impl(case):
 
 
 def to_request(case):
+    if case['op'] == 'bstconst':
+        return {'op': 'bstconst'}
     if case['op'] == 'bstparse' and 'file' in case:
         return {'op': 'bstparse', 'src': case_text(case)}
     return case
@@ -372,6 +410,27 @@ def accepted_clauses(text, s):
     return fails[:3]
 
 
+FUNCTION_OPS = c15_func.FUNCTION_OPS
+reconcile = c15_func.reconcile
+_SYNTAX_CLASSES = ('PybtexSyntaxError', 'TokenRequired', 'PrematureEOF')
+
+
+def names_line_clause(impl_out):
+    """'malformed source is rejected with a syntax error that names the line': the text of the error (str(error)) says
+    'syntax error' and contains the number error.lineno as a word after 'line'."""
+    import re
+    fails = []
+    for ep in ('string', 'stream', 'file'):
+        o = impl_out.get(ep) if isinstance(impl_out, dict) else None
+        if isinstance(o, dict) and o.get('err') in _SYNTAX_CLASSES and isinstance(o.get('line'), int) and 'str' in o:
+            t = o['str']
+            if not (isinstance(t, str) and re.search(r'\bline %d\b' % o['line'], t) and 'syntax error' in t):
+                fails.append('malformed_located: parse_%s rejects the source on line %d but the text of the error, %r, does not '
+                             'name that line as a syntax error' % (ep, o['line'], t))
+                break
+    return fails
+
+
 def oracle(case, impl_out, reply):
     fails = []
     op = case['op']
@@ -392,11 +451,14 @@ def oracle(case, impl_out, reply):
                              '[a = %r, b = %r]' % ('the same' if spec['same'] else 'different', impl_out['eq'], impl_out['ne'],
                                                    impl_out['text1'][:200], impl_out['text2'][:200]))
         return fails
+    if op in FUNCTION_OPS:
+        return fails      # function-level correspondence only: the clauses of the property are evaluated on the entry points
+    fails += names_line_clause(impl_out)
     if case.get('digest'):
         s = impl_out['string']
         if 'ok_sha1' not in s:
             fails.append('corpus: style file %s is rejected: %r' % (case.get('file'), s))
-        if not (impl_out['string'] == impl_out['stream'] == impl_out['file']):
+        if not (_core(impl_out['string']) == _core(impl_out['stream']) == _core(impl_out['file'])):
             fails.append('entry_points: parse_string / parse_stream / parse_file differ on %s' % case.get('file'))
         return fails
     s = impl_out['string']
@@ -406,7 +468,7 @@ def oracle(case, impl_out, reply):
         if spec['wf']:
             if s != {'ok': spec['prog']}:
                 fails.append('roundtrip: parse_string(print(p, L)) = %s differs from the program p' % json.dumps(s, ensure_ascii=False)[:300])
-            if spec['plain'] and not (impl_out['stream'] == s and impl_out['file'] == s):
+            if spec['plain'] and not (_core(impl_out['stream']) == _core(s) and _core(impl_out['file']) == _core(s)):
                 fails.append('entry_points: parse_stream/parse_file differ from parse_string on a printed program: %s / %s' % (
                     json.dumps(impl_out['stream'], ensure_ascii=False)[:200], json.dumps(impl_out['file'], ensure_ascii=False)[:200]))
     elif op == 'bstlex':
@@ -414,11 +476,11 @@ def oracle(case, impl_out, reply):
             fails.append('printer: the Python twin of the printer differs from the Lean render (harness problem)')
         if spec['wf']:
             want = spec['reading']
-            if s != want:
+            if _core(s) != want:
                 clause = 'roundtrip' if 'ok' in want else 'malformed_located'
                 fails.append('%s: parse_string gives %s, the lexeme sequence reads as %s' % (
                     clause, json.dumps(s, ensure_ascii=False)[:300], json.dumps(want, ensure_ascii=False)[:300]))
-            if spec['plain'] and not (impl_out['stream'] == s and impl_out['file'] == s):
+            if spec['plain'] and not (_core(impl_out['stream']) == _core(s) and _core(impl_out['file']) == _core(s)):
                 fails.append('entry_points: parse_stream/parse_file differ from parse_string on rendered lexemes')
     elif op == 'bstparse':
         # comments: parsing is unaffected by removing, from every line, the text from the first % outside a string
@@ -431,7 +493,7 @@ def oracle(case, impl_out, reply):
             nlines = max(1, len(spec['lines']))
             if not (isinstance(s.get('line'), int) and 1 <= s['line'] <= nlines):
                 fails.append('malformed_located: error line %r is not a line of the source (%d lines)' % (s.get('line'), nlines))
-        if spec['plain'] and spec['notrail'] and not (impl_out['stream'] == s and impl_out['file'] == s):
+        if spec['plain'] and spec['notrail'] and not (_core(impl_out['stream']) == _core(s) and _core(impl_out['file']) == _core(s)):
             fails.append('entry_points: parse_stream/parse_file differ from parse_string on plain text: %s / %s' % (
                 json.dumps(impl_out['stream'], ensure_ascii=False)[:200], json.dumps(impl_out['file'], ensure_ascii=False)[:200]))
     if isinstance(s, dict) and str(s.get('err', '')).startswith('INTERNAL'):
@@ -461,6 +523,16 @@ KNOWN_MATCHERS = {'C15-deep-nesting-recursion': _known_deep_nesting}
 
 def buckets(case, impl_out):
     op = case['op']
+    if op in c15_func.FUNCTION_OPS:
+        if isinstance(impl_out, dict) and isinstance(impl_out.get('error'), dict):
+            res = 'error:' + str(impl_out['error'].get('msg') or impl_out['error'].get('err'))[:14]
+        elif isinstance(impl_out, dict) and 'err' in impl_out:
+            res = 'error:' + str(impl_out['err'])
+        elif isinstance(impl_out, dict) and 'tok' in impl_out:
+            res = 'tok:' + str(impl_out['tok'][0])
+        else:
+            res = 'ok'
+        return ['%s:%s:%s' % (op, case.get('which', case.get('kind', '-')), res)]
     if op == 'bststrip':
         return ['strip:' + ('cut' if isinstance(impl_out, str) and impl_out != case['line'] else 'same')]
     if op == 'bsteq':
@@ -474,6 +546,8 @@ def buckets(case, impl_out):
 
 
 def nontrivial(case, impl_out):  # noqa: F811
+    if case['op'] in c15_func.FUNCTION_OPS:
+        return len(case.get('text', case.get('src', case.get('value', 'xx')))) >= 2
     if case['op'] == 'bststrip':
         return '%' in case['line'] or '"' in case['line']
     if case['op'] == 'bstrt':
@@ -486,7 +560,7 @@ def nontrivial(case, impl_out):  # noqa: F811
 
 
 def valid_case(case):
-    return isinstance(case, dict) and case.get('op') in ('bstrt', 'bstlex', 'bstparse', 'bststrip', 'bsteq')
+    return isinstance(case, dict) and case.get('op') in ('bstrt', 'bstlex', 'bstparse', 'bststrip', 'bsteq') + c15_func.FUNCTION_OPS
 
 
 # ------------------------------------------------------------------------------------------------
@@ -900,6 +974,7 @@ def gen_cases(tier, rng, info):
         cases.append({'op': 'bstparse', 'kind': 'raw', 'src': rand_raw(rng)})
     for i in range(1000 if q else 30000):
         cases.append({'op': 'bststrip', 'line': rand_line(rng)})
+    cases += c15_func.gen(tier, rng, info, rand_raw, rand_name, STR_CHARS)
     cases += style_file_cases()
     return cases
 
@@ -928,4 +1003,9 @@ LEVEL_NOTE = ('Trusted: Lean kernel; axioms propext/Classical.choice/Quot.sound 
               'need a spelling relation that admits multi-line strings and integer literals with leading zeros.  Both directions on '
               'arbitrary text (random raw text, every single-lexeme corruption and character truncation) are covered by the differential '
               'check and its independent reference reading only.  C15_command_case conjunct 1 and C15_unterminated_string_partial are '
-              'about the spec function / an internal parser function (see their clause texts).')
+              'about the spec function / an internal parser function (see their clause texts).  Function-level ops compare Scanner.eat_whitespace / '
+              'update_lineno / required, parse_group, parse_command, the literal constructors, the line splitting of the three entry points and '
+              'the text handed to BstParser one by one (pos and lineno in and out); the character classes [^#"{}\\s], [0-9], \\s, [^"] and '
+              'the line breaks of str.splitlines are compared over ALL code points on every run (op bstconst) instead of being regenerated; '
+              'Scanner.pos at the moment of an error, get_error_context / TokenRequired.get_context (modelled for C16) and the encoding '
+              'argument of parse_file (always utf-8 here) are not part of the C15 model.')
